@@ -367,6 +367,51 @@ pub fn run(ctx: &mut Ctx) {
                 Outcome::Ret(Err(_)) => {}
                 o => ctx.violation(&format!("verify:id=8192-bytes:{}", oc(&o)), json!({"id_len": 8192})),
             }
+            // a refused call must leave nothing behind: the next calls on this thread, with a valid ID, are exact
+            for j in 0..2 {
+                ctx.eval();
+                let _ = guard(|| if j == 0 { sk.sign(Some(ids), b"x").map(|_| ()) } else { sk.public_key.verify(Some(ids), b"x", &[1u8; 64]) });
+                let k2 = rand_scalar(&mut p, &c.n);
+                ctx.class("valid_call_right_after_refused_call");
+                fixed_case(ctx, &d, if j == 0 { None } else { Some("after") }, if j == 0 { DEFAULT_ID } else { "after" }, b"after a refused call", &k2, "valid_call_right_after_refused_call");
+                let _ = guard(|| sk.public_key.verify(Some(ids), b"x", &[1u8; 64]));
+                ref_made_case(ctx, &d, None, DEFAULT_ID, b"verify after a refused call", &k2, 0);
+            }
+        }
+    }
+
+    // --- opposite keys d and n - d (public keys P and -P share x) with one ID, used alternately on one thread
+    {
+        let no = ctx.n(4, 64);
+        let mut po = ctx.prng("opposite_keys");
+        for i in 0..no {
+            let sub = po.next();
+            if !ctx.mine(i) {
+                continue;
+            }
+            let mut p = Prng::new(sub, "o");
+            let d = rand_scalar(&mut p, &(&c.n - 2u32));
+            let dn = &c.n - &d;
+            if d.is_zero() || dn >= &c.n - 1u32 {
+                continue;
+            }
+            let id = ascii_id(&mut p, 1 + (i as usize % 20));
+            let ids = leak(id.clone());
+            let msg = p.bytes(24);
+            let (k1, k2) = (rand_scalar(&mut p, &c.n), rand_scalar(&mut p, &c.n));
+            let (Some((r1, s1)), Some((r2_, s2))) = (r2::sign(&d, id.as_bytes(), &msg, &k1), r2::sign(&dn, id.as_bytes(), &msg, &k2)) else { continue };
+            let (pk1, pk2) = (r2::mul(&d, &r2::g()).unwrap(), r2::mul(&dn, &r2::g()).unwrap());
+            let (Some(l1), Some(l2)) = (lib_pk(&pk1), lib_pk(&pk2)) else { continue };
+            let sig1 = [r1.to_vec(), s1.to_vec()].concat();
+            let sig2 = [r2_.to_vec(), s2.to_vec()].concat();
+            // verifications only (no signing in between), then signing under both keys
+            for (lpk, sig, dd) in [(&l1, &sig1, &d), (&l2, &sig2, &dn), (&l1, &sig1, &d), (&l2, &sig2, &dn)] {
+                ctx.class("opposite_keys_same_id_consecutive");
+                check_accepts(ctx, lpk, Some(ids), &id, &msg, sig, dd, "opposite_keys_same_id_consecutive");
+            }
+            fixed_case(ctx, &d, Some(ids), &id, &msg, &k1, "opposite_keys_same_id_consecutive");
+            fixed_case(ctx, &dn, Some(ids), &id, &msg, &k2, "opposite_keys_same_id_consecutive");
+            fixed_case(ctx, &d, Some(ids), &id, &msg, &k2, "opposite_keys_same_id_consecutive");
         }
     }
 
